@@ -375,6 +375,7 @@ class Gen:
     def world(self):
         r, cfg = self.r, self.cfg
         files = {}
+        self._files = files
         dirs = [ROOT] + [os.path.join(ROOT, d) for d in IN_DIRS if d] + [BUILD_IN, BUILD_OUT,
                                                                           "proj/db"]
         hdr_dirs = [os.path.join(ROOT, d) if d else ROOT for d in IN_DIRS]
@@ -502,6 +503,11 @@ class Gen:
         if base is not None and r.random() < cfg.get("p_uniform", 0.0):
             sem = dict(base)
             sem["src"] = src
+            # a forced include given by bare name must not exist beside *this* main file either (CBI looks
+            # there first, a compiler looks in its working directory first)
+            here = os.path.dirname(src)
+            sem["forced"] = [f for f in base["forced"]
+                             if f.startswith(TOP) or os.path.join(here, f) not in self._files]
             return sem
         sem = self._fresh_sem(src, inc_pool, hdrs)
         if base is None:
